@@ -30,7 +30,7 @@ ASSUMPTIONS = [
 ]
 BUDGET = {
     "quick": {"examples": 700, "shards": 4},
-    "thorough": {"examples": 12000, "shards": 16},
+    "thorough": {"examples": 7000, "shards": 16},
 }
 FLOORS = {"noise": 0.25, "plain": 0.25, "batch_ge_2": 0.3, "noise_writes_ge_3": 0.1}
 
